@@ -112,9 +112,14 @@ func (it *Item[T]) Remove() bool {
 	}
 
 	// ok, go looking for the detach point in the stack.
-	for next := it.stack.head; next.Ok(); next = next.next {
+	var prev *Item[T]
+	for next := it.stack.head; next.Ok(); prev, next = next, next.next {
 		// the next item is going to be the head of the new stack
 		if next == it {
+			if prev != nil {
+				// unlink the item from its predecessor
+				prev.next = it.next
+			}
 			it.stack.length--
 			it.stack = nil
 			next.next = it.next
